@@ -1,5 +1,6 @@
 // Helpers shared by scenario files.
 #pragma once
+#include <type_traits>
 #include <memory>
 #include "../kernel/core.h"
 #include "../seams/env.h"
@@ -15,8 +16,8 @@ template <class F> Out callLib(const Plan& plan, F&& f, std::string* what = null
 	scribbleStack(static_cast<unsigned char>(plan.envu("stack", 0x5a)));
 	Armed arm;
 	try { f(); return OkOut; }
-	catch (const std::exception& e) { g_alloc.failCountdown = 0; if (what) *what = e.what(); return ErrStd; }
-	catch (...) { g_alloc.failCountdown = 0; if (what) *what = "non-std exception"; return ErrOther; }
+	catch (const std::exception& e) { g_alloc.failCountdown = 0; g_alloc.injectionInFlight = false; if (what) *what = e.what(); return ErrStd; }
+	catch (...) { g_alloc.failCountdown = 0; g_alloc.injectionInFlight = false; if (what) *what = "non-std exception"; return ErrOther; }
 }
 
 inline std::string outName(Out o) { return o == OkOut ? "ok" : o == ErrStd ? "error" : "foreign-exception"; }
@@ -99,14 +100,25 @@ inline void swarmEnv(Plan& p, Rng& r, bool readFaults, bool writeFaults, bool bi
 // original is destroyed), or by an object moved out of such a copy. Every later call must behave as before.
 template <class A> void maybeCloneArchive(const Plan& plan, RunCtx& ctx, std::unique_ptr<A>& ar, size_t opIndex, const char* clause) {
 	if (!ar || mix64(plan.seed, 0xC10E) % 8 != opIndex % 8 || mix64(plan.seed, 3) % 3 == 0) return;
-	std::string what;
-	Out o = callLib(plan, [&] {
-		auto c = std::make_unique<A>(*ar);
-		if (mix64(plan.seed, 5) & 1) { auto d = std::make_unique<A>(std::move(*c)); c = std::move(d); }
-		ar = std::move(c);
-	}, &what);
-	if (o != OkOut) ctx.fail(clause, "copying the archive object failed: " + what);
-	ctx.count("probe.archive_object_cloned");
+	// (no property promises that these objects can be copied: if the library makes them non-copyable, the lane is simply absent)
+	if constexpr (std::is_copy_constructible<A>::value && std::is_move_constructible<A>::value) {
+		std::string what;
+		Out o = callLib(plan, [&] {
+			auto c = std::make_unique<A>(*ar);
+			if (mix64(plan.seed, 5) & 1) { auto d = std::make_unique<A>(std::move(*c)); c = std::move(d); }
+			ar = std::move(c);
+		}, &what);
+		if (o != OkOut) ctx.fail(clause, "copying the archive object failed: " + what);
+		ctx.count("probe.archive_object_cloned");
+	}
+}
+
+// Replace `obj` by a copy of itself / an object moved out of a copy (how = 1 / 2), if the type can be copied at all.
+template <class T> void cloneValue(T& obj, uint64_t how) {
+	if constexpr (std::is_copy_constructible<T>::value && std::is_copy_assignable<T>::value && std::is_move_constructible<T>::value) {
+		T c(obj);
+		if (how == 1) { T d(std::move(c)); obj = d; } else obj = c;
+	}
 }
 
 // Worlds holding megabytes: byte-sized transfers would only multiply intercepted calls (and run into the per-call I/O budget,
